@@ -77,7 +77,7 @@ class C13(Prop):
                 s, e = e, s
             e = (e // DAY) * DAY + rng.choice([86340, 86340, 0, 52200])
             if e < s:
-                e = (s // DAY) * DAY + 86340
+                e = (s // DAY + 1) * DAY + 86340
             which = rng.choice(['weekly', 'daily', 'end_of_month', 'buy_and_hold'])
             burn = rng.choice([None, s + rng.randint(0, max(1, e - s)), (s // DAY + rng.randint(0, 9)) * DAY + rng.choice([52200, 75600, 0])])
             cases.append({'kind': 'sess_sched', 'which': which, 'start': s, 'stop': e, 'pm': False, 'weekday': rng.choice(WD),
